@@ -20,7 +20,7 @@ MANIFEST = {
             "arrangement/element-index/system-operation operands are judged on template + register fields only (partial; counted in the evidence). "
             "Classes without a hand model are covered by the monitor sweep only (testing).",
 }
-MODS = ["AsmjitVerif.Props.C02", "AsmjitVerif.Props.C02E2E", "AsmjitVerif.Props.C02Valid", "AsmjitVerif.Props.C02Mov", "AsmjitVerif.Props.C02Bits", "AsmjitVerif.Props.C02Wide", "AsmjitVerif.Props.C02Refuse", "AsmjitVerif.Props.C02MemOff", "AsmjitVerif.Props.C02Logical"]
+MODS = ["AsmjitVerif.Props.C02", "AsmjitVerif.Props.C02E2E", "AsmjitVerif.Props.C02Valid", "AsmjitVerif.Props.C02Mov", "AsmjitVerif.Props.C02Bits", "AsmjitVerif.Props.C02Wide", "AsmjitVerif.Props.C02Refuse", "AsmjitVerif.Props.C02MemOff", "AsmjitVerif.Props.C02Logical", "AsmjitVerif.Props.C02LdSt", "AsmjitVerif.Props.C02Pair", "AsmjitVerif.Props.C02Rel", "AsmjitVerif.Props.C02Sys", "AsmjitVerif.Props.C02Refuse2", "AsmjitVerif.Props.C02Refuse3", "AsmjitVerif.Props.C02RR", "AsmjitVerif.Props.C02BfAlias"]
 M64 = (1 << 64) - 1
 
 GP_IDS_OK = [0, 1, 7, 8, 15, 16, 29, 30]
@@ -330,7 +330,7 @@ def gen_ops(forms, name2ids, rng, tier):
         lines = {}
         for iid in ids:
             if f.get("cond"):
-                ccs = [2, 3, 15, 1]
+                ccs = [2, 3, 15, 1, 0]
             else:
                 ccs = [0]
             for cc in ccs:
@@ -357,6 +357,40 @@ def gen_ops(forms, name2ids, rng, tier):
             if len(l.split()) <= 10:
                 ops.append(l)
                 meta.append((fi, lines[l]))
+    # `mov Rd, #imm` (the move-immediate pseudo instruction, encode_mov_sequence_32/64): structured constants - every half-word
+    # of a 32- and of a 64-bit value is 0, 0xFFFF or random - into W and X destinations.  The monitor judges them by VALUE
+    # (Spec/A64Decode.lean describesMovImm: the register ends up equal to the immediate, zero-extended for a W write), so a
+    # MOVN shortcut that sets sf for an X destination (`mov x1, #0xFFFF1234` = movn w1 - 129DB961, not 929DB961) is a BAD line.
+    mov_form = next((i for i, f in enumerate(forms) if f["name"] == "mov"), 0)
+    seen = set(ops)
+    for iid in name2ids.get("mov", []):
+        vals = set()
+        for nh in (2, 4):
+            choices = [[0, 0xFFFF, rng.randrange(1, 0xFFFF)] for _ in range(nh)]
+            idx = [0] * nh
+            while True:
+                v = 0
+                for k in range(nh):
+                    c = choices[k][idx[k]]
+                    v |= (c if c in (0, 0xFFFF) else rng.randrange(1, 0xFFFF)) << (16 * k)
+                vals.add(v)
+                k = 0
+                while k < nh:
+                    idx[k] += 1
+                    if idx[k] < 3:
+                        break
+                    idx[k] = 0
+                    k += 1
+                if k == nh:
+                    break
+        for v in sorted(vals):
+            for rt in (5, 6):
+                for rid in (1, 30):
+                    l = "emit %d %d 0 r%d.%d i%x" % (rng.choice((0, 8)), iid, rt, rid, v)
+                    if l not in seen:
+                        seen.add(l)
+                        ops.append(l)
+                        meta.append((mov_form, "mov-structured"))
     return ops, meta
 
 
